@@ -303,8 +303,8 @@ Proof.
 Qed.
 
 (* ---------- copy(preserve_owner=False) *)
-Lemma attach_attrs_lo lo base d n t : forall k,
-  lo <= base -> lo_ok lo t -> lo_ok lo (attach_attrs base d n k t).
+Lemma attach_attrs_lo lo base n t : forall k,
+  lo <= base -> lo_ok lo t -> lo_ok lo (attach_attrs base n k t).
 Proof.
   induction t as [b v | f a es IH] using lt_ind'; intros k Hle Ht; cbn [attach_attrs]; [exact Ht|].
   apply lo_LF in Ht. destruct Ht as [Hf [Ha Hes]]. apply lo_LF. split; [exact Hf|]. split.
@@ -312,6 +312,5 @@ Proof.
     rewrite app_nil_r in Hl. destruct (Nat.eqb (S k) n); cbn in Hl; [destruct Hl as [<- | []]; lia | destruct Hl].
   - apply lo_es_iff. intros ct Hin. apply in_map_iff in Hin. destruct Hin as [ct0 [<- Hin0]]. cbn [snd].
     pose proof (proj1 (lo_es_iff lo es) Hes _ Hin0) as H0.
-    destruct (l_empty d (snd ct0)); [exact H0|].
     rewrite Forall_forall in IH. apply IH; [exact Hin0 | exact Hle | exact H0].
 Qed.
